@@ -95,12 +95,37 @@ def coq_sources(group):
     return sorted(glob.glob(os.path.join(coq_dir(group), "*.v")))
 
 
+def coq_deps(group):
+    """groups this group's _CoqProject refers to with `-Q ../<g> <Name>` (their .vo files must exist first)"""
+    deps = []
+    for l in open(os.path.join(coq_dir(group), "_CoqProject")):
+        m = re.match(r"\s*-Q\s+\.\./(\w+)\s+\w+", l)
+        if m:
+            deps.append(m.group(1))
+    return deps
+
+
+def coq_qargs(group, absolute=False):
+    d = coq_dir(group)
+    qargs = []
+    for l in open(os.path.join(d, "_CoqProject")):
+        l = l.strip()
+        if l.startswith("-Q") or l.startswith("-R"):
+            parts = l.split()
+            if absolute:
+                parts[1] = os.path.normpath(os.path.join(d, parts[1]))
+            qargs += parts
+    return qargs
+
+
 def coq_hash(group):
     h = hashlib.sha256()
     for f in coq_sources(group) + [os.path.join(coq_dir(group), "_CoqProject")]:
         h.update(os.path.basename(f).encode())
         with open(f, "rb") as fh:
             h.update(fh.read())
+    for g in coq_deps(group):
+        h.update(coq_hash(g).encode())
     return h.hexdigest()
 
 
@@ -142,6 +167,18 @@ def coq_build(group, force=False, timeout=3000):
     """Full .vo build of the group's project (cached by source hash)."""
     d = coq_dir(group)
     os.makedirs(BUILD, exist_ok=True)
+    for g in coq_deps(group):
+        ok, out = coq_build(g, timeout=timeout)
+        if not ok:
+            return False, "dependency group '%s' failed: %s" % (g, out[-1500:])
+    import fcntl
+    with open(os.path.join(BUILD, "coq-%s.lock" % group), "w") as lockfh:
+        fcntl.flock(lockfh, fcntl.LOCK_EX)
+        return _coq_build_locked(group, force, timeout)
+
+
+def _coq_build_locked(group, force, timeout):
+    d = coq_dir(group)
     stamp = os.path.join(BUILD, "coq-%s.stamp" % group)
     h = coq_hash(group)
     if not force and os.path.exists(stamp) and open(stamp).read().strip() == h:
@@ -165,12 +202,7 @@ def coq_props(group, propfile):
     """Re-compile the property file alone (its dependencies are built) and
     return (ok, {theorem: [axioms]}, raw_output, n_theorems, pins)."""
     d = coq_dir(group)
-    proj = open(os.path.join(d, "_CoqProject")).read().split("\n")
-    qargs = []
-    for l in proj:
-        l = l.strip()
-        if l.startswith("-Q") or l.startswith("-R"):
-            qargs += l.split()
+    qargs = coq_qargs(group)
     rc, out = sh(["timeout", "900", "coqc"] + qargs + [propfile], cwd=d, timeout=960)
     src = strip_comments(open(os.path.join(d, propfile)).read())
     theorems = re.findall(r"^\s*(?:Theorem|Corollary)\s+(\w+)", src, re.M)
@@ -205,11 +237,11 @@ def coqchk(group, propfile, timeout=2400):
     lp = None
     for l in open(os.path.join(d, "_CoqProject")):
         l = l.strip()
-        if l.startswith("-Q") or l.startswith("-R"):
+        if (l.startswith("-Q") or l.startswith("-R")) and l.split()[1] == ".":
             lp = l.split()[2]
     mod = "%s.%s" % (lp, propfile[:-2])
     try:
-        rc, out = sh(["timeout", str(timeout), "coqchk", "-silent", "-o", "-Q", ".", lp, mod], cwd=d, timeout=timeout + 60)
+        rc, out = sh(["timeout", str(timeout), "coqchk", "-silent", "-o"] + coq_qargs(group) + [mod], cwd=d, timeout=timeout + 60)
     except subprocess.TimeoutExpired:
         return "timeout", ""
     if rc == 124:
@@ -257,13 +289,7 @@ def proof_gate(group, propfile, force=False, chk=False):
 def coq_eval(group, text, name="cases", timeout=600):
     """Compile a scratch .v file against the group's project; returns stdout."""
     d = coq_dir(group)
-    proj = open(os.path.join(d, "_CoqProject")).read().split("\n")
-    qargs = []
-    for l in proj:
-        l = l.strip()
-        if l.startswith("-Q") or l.startswith("-R"):
-            parts = l.split()
-            qargs += [parts[0], os.path.join(d, parts[1]) if parts[1] != "." else d, parts[2]]
+    qargs = coq_qargs(group, absolute=True)
     sd = os.path.join(BUILD, "scratch-%s-%d" % (group, os.getpid()))
     os.makedirs(sd, exist_ok=True)
     f = os.path.join(sd, name + ".v")
